@@ -157,6 +157,9 @@ def get_crop_item_from_points(points, wcs, crop_by_values, keepdims):
                 point_indices_with_inputs.append(i)
                 array_axes_with_input.append(point_inputs_array_axes[i])
         array_axes_with_input = set(chain.from_iterable(array_axes_with_input))
+        # A point without any coordinate does not constrain the region.
+        if not array_axes_with_input:
+            continue
         array_axes_without_input = set(range(wcs.pixel_n_dim)) - array_axes_with_input
         # Slice out the axes that do not correspond to a coord
         # from the WCS and the input point.
